@@ -1,13 +1,16 @@
-(* Corr/C16.v — a case: one member of a nesting family (kind, levels) with the parser's
-   recursion high-water mark reported by the hook and whether the implementation rejected the
-   query with a nesting-limit error.  Agreement: the unguarded model predicts the depth. *)
-From NDB Require Export Parser.Depth Corr.Common.
+(* Corr/C16.v — a case: one member of a nesting family (kind, levels) with what the real parser
+   did: rejected with the nesting-limit error? and, if accepted, the recursion high-water mark the
+   hook reported.  Agreement: the model with the code's constants (budget of a build with debug
+   assertions, as the harness profile has) predicts both. *)
+From NDB Require Export Gen.Consts Parser.Depth Corr.Common.
 Open Scope N_scope.
 
 Record case := { kind : N; nest : N; impl_depth : N; impl_rejected : bool }.
 
 Definition ok (c : case) : bool :=
-  if N.ltb 5000 (nest c) then true   (* not evaluated: keeps vm_compute away from very large unary fuel *)
+  if N.ltb 5000 (nest c) then impl_rejected c   (* far beyond the limit: must be rejected; not evaluated (unary fuel) *)
   else
-    let r := depth_reached None (family (kind c) (N.to_nat (nest c))) in
-    N.eqb (hw_of r) (impl_depth c) && negb (impl_rejected c) && negb (rejected r).
+    let r := parse_return parser_expression_nesting_cost parser_query_nesting_cost (Some parser_depth_budget_debug)
+                          (family (kind c) (N.to_nat (nest c))) in
+    if rejected r then impl_rejected c
+    else negb (impl_rejected c) && N.eqb (hw_of r) (impl_depth c).
